@@ -74,7 +74,7 @@ class Contract:
 
 
 class ClassDecl:
-    def __init__(self, name, bases=(), fields=None, elem=None, props=None, truthy=None, consts=None, attrmap=None):
+    def __init__(self, name, bases=(), fields=None, elem=None, props=None, truthy=None, consts=None, attrmap=None, universal=False):
         self.name = name
         self.bases = list(bases)
         self.fields = dict(fields or {})
@@ -82,6 +82,7 @@ class ClassDecl:
         self.props = dict(props or {})
         self.truthy = truthy
         self.consts = dict(consts or {})
+        self.universal = universal  # every object (builtin containers included) is an instance: Python's `object`
         self.attrmap = attrmap      # field (a dict[str,T]) standing for the object's dynamic attribute namespace
 
 
@@ -115,8 +116,8 @@ class Prop:
         self.ghosts = {}
         self.globals = {}
 
-    def cls(self, name, bases=(), fields=None, elem=None, props=None, truthy=None, consts=None, attrmap=None):
-        c = ClassDecl(name, bases, fields, elem, props, truthy, consts, attrmap)
+    def cls(self, name, bases=(), fields=None, elem=None, props=None, truthy=None, consts=None, attrmap=None, universal=False):
+        c = ClassDecl(name, bases, fields, elem, props, truthy, consts, attrmap, universal)
         self.classes[name] = c
         for f, t in c.fields.items():
             self.fields.setdefault(f, t)
